@@ -1,0 +1,131 @@
+//! Verification hooks: a per-thread step counter ("simulated time") and
+//! probe counters used by an external deterministic simulator.
+//!
+//! This module only exists when the crate is built with
+//! `--cfg html2text_verif`; without it the `verif_tick!` macro expands to
+//! nothing and none of this code is compiled.
+
+use std::cell::{Cell, RefCell};
+
+/// The places in the library which report a step.
+#[derive(Copy, Clone, Debug, PartialEq, Eq)]
+#[repr(usize)]
+pub enum Site {
+    /// One node visited by the iterative tree walker.
+    TreeNode = 0,
+    /// One iteration of the table column shrinking loop.
+    TableShrink,
+    /// One character added to a wrapped block.
+    AddTextChar,
+    /// One iteration of the tab stop loop.
+    TabStop,
+    /// One iteration of the whitespace fill loop.
+    WsFill,
+    /// One iteration of the hard-wrap loop.
+    HardWrap,
+    /// One character processed when formatting link footnotes.
+    FmtLinksChar,
+    /// One selector matching step.
+    SelectorMatch,
+    /// One iteration of the CSS string token scanner.
+    CssString,
+    /// One iteration of the CSS skip-to-end-of-statement scanner.
+    CssSkip,
+    /// One tree sink operation during HTML parsing.
+    SinkOp,
+    /// One border segment added when stretching a border.
+    BorderStretch,
+    /// Probe: a too-narrow error was raised.
+    ProbeTooNarrow,
+    /// Probe: a table was laid out with stacked (vertical) rows.
+    ProbeVertTable,
+    /// Probe: a hard wrap overflowed the width because overflow is allowed.
+    ProbeOverflowWrap,
+    /// Probe: a colspan was remapped to a different value.
+    ProbeColspanRemap,
+    /// Probe: pending fragment markers were attached to a line.
+    ProbeFragAttach,
+    /// Probe: text was appended to an existing DOM text node.
+    ProbeTextMerge,
+}
+
+/// Number of distinct sites.
+pub const NUM_SITES: usize = Site::ProbeTextMerge as usize + 1;
+
+/// The first site index which is a pure probe (does not advance time).
+pub const FIRST_PROBE: usize = Site::ProbeTooNarrow as usize;
+
+/// Callback invoked when the thread's tick count reaches the armed
+/// threshold.  Receives the current tick count and the site; returns the
+/// next threshold.
+pub type Callback = Box<dyn FnMut(u64, Site) -> u64>;
+
+thread_local! {
+    static TICKS: Cell<u64> = const { Cell::new(0) };
+    static NEXT: Cell<u64> = const { Cell::new(u64::MAX) };
+    static COUNTS: RefCell<[u64; NUM_SITES]> = const { RefCell::new([0; NUM_SITES]) };
+    static CALLBACK: RefCell<Option<Callback>> = const { RefCell::new(None) };
+}
+
+/// Record one step at `site`.
+#[inline]
+pub fn tick(site: Site) {
+    COUNTS.with(|c| c.borrow_mut()[site as usize] += 1);
+    if (site as usize) >= FIRST_PROBE {
+        return;
+    }
+    let t = TICKS.with(|t| {
+        let v = t.get() + 1;
+        t.set(v);
+        v
+    });
+    if t >= NEXT.with(|n| n.get()) {
+        slow(t, site);
+    }
+}
+
+#[cold]
+fn slow(t: u64, site: Site) {
+    // Take the callback out while it runs, so that a panic raised by it
+    // (used to stop a run which exceeded its step budget) leaves no
+    // outstanding borrow, and disarm the threshold meanwhile.
+    let cb = CALLBACK.with(|c| c.borrow_mut().take());
+    if let Some(mut cb) = cb {
+        NEXT.with(|n| n.set(u64::MAX));
+        let next = cb(t, site);
+        NEXT.with(|n| n.set(next));
+        CALLBACK.with(|c| *c.borrow_mut() = Some(cb));
+    } else {
+        NEXT.with(|n| n.set(u64::MAX));
+    }
+}
+
+/// Install a callback for this thread, armed at tick count `first`.
+/// Resets this thread's counters.
+pub fn install(first: u64, cb: Callback) {
+    reset();
+    CALLBACK.with(|c| *c.borrow_mut() = Some(cb));
+    NEXT.with(|n| n.set(first));
+}
+
+/// Remove this thread's callback (counters are kept).
+pub fn uninstall() {
+    NEXT.with(|n| n.set(u64::MAX));
+    CALLBACK.with(|c| *c.borrow_mut() = None);
+}
+
+/// Reset this thread's counters.
+pub fn reset() {
+    TICKS.with(|t| t.set(0));
+    COUNTS.with(|c| *c.borrow_mut() = [0; NUM_SITES]);
+}
+
+/// This thread's tick count.
+pub fn ticks() -> u64 {
+    TICKS.with(|t| t.get())
+}
+
+/// This thread's per-site counters.
+pub fn counts() -> [u64; NUM_SITES] {
+    COUNTS.with(|c| *c.borrow())
+}
